@@ -258,9 +258,15 @@ def parse_output(text):
         if t == "I":
             cur["init"] = [int(x) for x in w[1:]]
         elif t == "O":
-            op = {"name": w[2], "arg": w[3:] , "sys": [], "api": [], "env": [], "res": None}
+            op = {"name": w[2], "arg": w[3:], "sys": [], "kopen": [], "api": [], "env": [], "res": None}
             cur["ops"].append(op)
         elif t == "S" and op is not None:
+            # optional trailing k=<0|1> (harness only): did the kernel have the number open when the call was made
+            k = None
+            if w[-1].startswith("k="):
+                k = w[-1] == "k=1"
+                w = w[:-1]
+            op["kopen"].append(k)
             if w[1] == "pwrite":
                 op["sys"].append(("pwrite", int(w[2]), int(w[3]), int(w[4]), int(w[5])))
             elif w[1] == "open":
@@ -367,7 +373,7 @@ def compare(ctx, case, impl, model):
                 return {"op_index": k, "impl": x, "model": y}
     if impl["final"] != model["final"]:
         return {"open descriptors at the end": {"impl": impl["final"], "model": model["final"]}}
-    if case["kind"] == "raw" and not case.get("reuse"):
+    if case["kind"] == "raw":
         for p, mb in model["files"].items():
             if p == "":
                 continue
@@ -452,30 +458,47 @@ def oracle_c16(case, impl, stderr=""):
                       "a failing write re-enters the stop path without bound" % (last, code, sig)))
         else:
             v.append(("crash", "the process died during the history (exit=%s signal=%s)" % (code, sig)))
-    own = set()
+    own = set()                        # opened by the device through an interposed open, not closed since
+    foreign = set(impl["init"])        # descriptors of the rest of the process: open at the start + opened by it since
     for k, o in enumerate(impl["ops"]):
         failed_call = any(a[0] in ("file_create", "file_write") and a[1] == 0 for a in o["api"])
-        for s in o["sys"]:
+        for e in o["env"]:
+            if e[0] == "open" and e[1] >= 0:
+                foreign.add(e[1])
+            elif e[0] == "close":
+                foreign.discard(e[1])
+        for s, kopen in zip(o["sys"], o["kopen"] + [None] * len(o["sys"])):
             if s[0] == "open":
                 if s[2] >= 0:
                     own.add(s[2])
+                continue
+            fd = s[1]
+            what = {"close": "closes", "pwrite": "writes to", "flock": "locks"}[s[0]]
+            # ground truth where the harness recorded it (k=...): the number must be open and must not belong to the
+            # rest of the process; otherwise (no kernel information) fall back to the opens seen
+            if kopen is not None:
+                bad = (not kopen) or fd in foreign
             else:
-                fd = s[1]
-                if fd not in own:
-                    what = {"close": "closes", "pwrite": "writes to", "flock": "locks"}[s[0]]
-                    why = "descriptor %d, which it never opened" % fd if fd in impl["init"] else \
-                        ("descriptor -1" if fd < 0 else "descriptor %d, which it has already closed (a stale number)" % fd)
-                    v.append(("%s-unowned" % s[0], "op %d (%s): the device %s %s" % (k, o["name"], what, why)))
-                elif s[0] == "close":
-                    own.discard(fd)
+                bad = fd not in own
+            if bad:
+                if fd < 0:
+                    why = "descriptor -1"
+                elif fd in foreign:
+                    why = "descriptor %d, which belongs to the rest of the process (%s)" % (
+                        fd, "open before the device existed" if fd in impl["init"] else "a stale number somebody else has been given since")
+                else:
+                    why = "descriptor %d, which is not open (a stale number: it has already closed it)" % fd
+                v.append(("%s-unowned" % s[0], "op %d (%s): the device %s %s" % (k, o["name"], what, why)))
+                if s[0] == "close" and fd in foreign and s[2] == 0:
+                    foreign.discard(fd)
+            elif s[0] == "close":
+                own.discard(fd)
         if o["name"] in ("start", "append") and failed_call and o["res"] and o["res"][1] == "Running":
             v.append(("failure-not-reported", "op %d (%s): file_create/file_write returned 0 inside the call but the device is still Running afterwards"
                       % (k, o["name"])))
         if o["name"] in ("start", "append") and o["res"] and o["res"][1] == "Running" and any(s[0] == "pwrite" and s[4] < 0 for s in o["sys"]):
             v.append(("failure-not-reported", "op %d (%s): a pwrite failed inside the call but the device is still Running afterwards" % (k, o["name"])))
     if impl["exit"] == (0, 0) and not impl["trunc"]:
-        if own:
-            v.append(("descriptor-leak", "descriptor(s) %s opened by the device are still open after destroy" % sorted(own)))
         if impl["final"] is not None:
             env = set(impl["init"])
             for o in impl["ops"]:
@@ -487,9 +510,11 @@ def oracle_c16(case, impl, stderr=""):
             extra = sorted(set(impl["final"]) - env)
             missing = sorted(env - set(impl["final"]))
             if extra:
-                v.append(("descriptor-leak", "the kernel still has descriptor(s) %s open after destroy" % extra))
+                v.append(("descriptor-leak", "descriptor(s) %s opened during the device's life are still open after destroy" % extra))
             if missing:
                 v.append(("closed-foreign", "descriptor(s) %s of the rest of the process are no longer open after the device's life" % missing))
+        elif own:
+            v.append(("descriptor-leak", "descriptor(s) %s opened by the device are still open after destroy" % sorted(own)))
     # one per key
     seen = set()
     out = []
@@ -517,10 +542,25 @@ def import_case(obj):
     return c
 
 
+def disciplined(ops):
+    """no `set` while the device may be running (the runtime's discipline, C08): a shrunk history must keep it"""
+    maybe_running = False
+    for o in ops:
+        if o[0] == "set" and maybe_running:
+            return False
+        if o[0] == "start":
+            maybe_running = True
+        if o[0] == "stop":
+            maybe_running = False
+    return True
+
+
 def minimise(ctx, orac, impl, case, prop, key, counter=[0]):
     base = export_case(case)
 
     def fails(ops):
+        if not disciplined(ops):
+            return False
         cand = import_case(dict(base, ops=ops))
         counter[0] += 1
         r = run_batch(ctx, orac, impl, [cand], "min%d" % counter[0])
@@ -538,12 +578,9 @@ def minimise(ctx, orac, impl, case, prop, key, counter=[0]):
 
 
 def replay_obj(ctx, case, impl_rec, what):
-    c = export_case(case)
-    for o in c["ops"]:
-        if o[0] == "append":
-            o[2] = "(%d frames)" % len(o[2])
+    c = export_case(case)          # complete: tools/check.py --property Cxx --replay <this file> re-runs it
     lines = harness_lines(case, "replay", "<an empty scratch directory>")
-    return {"case": c, "harness_stdin": lines,
+    return {"case": c, "from": case.get("src", "generated (seed %d)" % ctx.seed), "harness_stdin": lines,
             "how": "feed harness_stdin to .build/%s/h_storage (built by this check from the tree under test; env %s); "
                    "S lines are the system calls, R lines the HAL status and device state after each call" % (ctx.prop, json.dumps(RUN_ENV)),
             "observed": [[o["name"], [list(s) for s in o["sys"]][:12], o["res"]] for o in (impl_rec or {}).get("ops", [])][:40],
@@ -604,7 +641,9 @@ def load_corpus(prop):
         for fn in sorted(os.listdir(cdir)):
             if fn.endswith(".json"):
                 obj = json.load(open(os.path.join(cdir, fn)))
-                out.append(import_case(obj))
+                c = import_case(obj)
+                c["src"] = "corpus/%s/%s" % (prop, fn)
+                out.append(c)
     return out
 
 
@@ -682,6 +721,18 @@ def run(ctx):
         "C14: acquisitions that re-use a path of the same history are outside the statement (file_create does not truncate); counted in c14_outside, bytes not compared",
         "tiff kinds: pwrite offsets and bytes are C15's subject and are not compared here; call, descriptor, length and result are",
     ]
+    # ---- replay of a recorded violation:  tools/check.py --property Cxx --replay replays/Cxx-n.json
+    rf = getattr(ctx, "replay_file", None)
+    if rf:
+        obj = json.load(open(rf))
+        c = ((obj.get("replay") or {}).get("case")) if "replay" in obj else obj
+        if not c or "ops" not in c:
+            ctx.broken_tie("replay file holds no case (it records a proof/tie that no longer checks, not a failing input)", rf)
+            return
+        c = import_case(c)
+        c["src"] = rf
+        fold(ctx, orac, impl, run_batch(ctx, orac, impl, [c], "replay"), prop, "replay")
+        return
     # ---- corpus
     corpus = load_corpus(prop)
     if corpus:
@@ -695,7 +746,7 @@ def run(ctx):
                     "extracted model: every open/flock/pwrite/close (descriptor, offset, length, result), HAL status and device state per call, final "
                     "descriptor table, final bytes of every file read back from disk. Non-trivial = at least one append and >= 4 system calls; "
                     "distinct = distinct (scripts, op list).")
-        n = 6000 if thorough else 700
+        n = 60000 if thorough else 6000
         for i in range(n):
             c = gen_history(rng, "raw", thorough)
             short_write_script(rng, c)
@@ -713,7 +764,7 @@ def run(ctx):
                     "runs in a forked child of the harness (crash / stack overflow / CPU limit are observables). Compared with the extracted model: "
                     "system-call log, HAL status and state per call, final descriptor table. Non-trivial = a system call failed or >= 3 ops, and >= 4 "
                     "system calls.")
-        nref = 250 if thorough else 6
+        nref = 330 if thorough else 12    # x 3 kinds (+ trash/6): quick sweeps every fault index of 38 histories, thorough of 1045
         refs = []
         for kind in KINDS:
             for i in range(nref if kind != "trash" else max(1, nref // 6)):
@@ -724,7 +775,7 @@ def run(ctx):
             cases += fault_sweep(rng, c, no, nw, limit=None if thorough else 40)
         ctx.extra["reference_histories"] = len(refs)
         # random mixes
-        for i in range(3000 if thorough else 300):
+        for i in range(30000 if thorough else 3000):
             c = gen_history(rng, rng.choice(KINDS[:3]), False)
             toks = []
             for _ in range(rng.randrange(0, 40)):
@@ -741,5 +792,12 @@ def run(ctx):
     for b in range(0, len(cases), chunk):
         res = run_batch(ctx, orac, impl, cases[b:b + chunk], "g%d" % (b // chunk))
         fold(ctx, orac, impl, res, prop, "generated")
-        for c in cases[b:b + chunk]:
-            c["ops"] = None if False else c["ops"]
+    # ---- thorough: independent re-check of the compiled proofs with coqchk
+    pf = "Properties_" + prop
+    if thorough and os.path.exists(os.path.join(ctx.coqdir, pf + ".vo")):
+        rc, o, e = vlib.sh("timeout 900 coqchk -o -silent -Q . FileIO FileIO." + pf, cwd=ctx.coqdir, timeout=950)
+        txt = o + e
+        ok = rc == 0 and "Axioms: <none>" in txt and "type-in-type: <none>" in txt
+        ctx.extra["coqchk"] = "ok: axioms <none>, no type-in-type, no unsafe fixpoints" if ok else txt[-800:]
+        if not ok:
+            ctx.broken_tie("coqchk does not accept FileIO." + pf, txt[-800:])
